@@ -8,8 +8,25 @@ claim("C01",
       "Structural necessary conditions of C01 decided for every function and path of the BLAS packages: no operand is indexed, sliced or forwarded with another operand's leading dimension / increment / Stride (STRIDE). A violation of this rule changes which elements are addressed whenever two operands have different strides, which the test suite almost never exercises. Arithmetic correctness of the loop nests is NOT decided.",
       TRUST, "DESIGN.md §3.2, §4 C01")
 
+claim("C02",
+      "custom CFG path analysis (workspace-query purity, validate-before-write) + stride-unit dataflow lint",
+      "Structural necessary conditions of C02 decided for all paths of the anchored lapack/gonum routines in both workspace modes: a query (lwork == -1) stores only to work[0] and calls only queries/scalar helpers; arguments are validated before any operand write; every slice use is preceded by a branch on its length; no operand is addressed with a foreign leading dimension. Backward stability and factor structure are NOT decided.",
+      TRUST, "DESIGN.md §3.2, §3.3, §4 C02")
+claim("C03",
+      "custom CFG path analysis (workspace-query purity, validate-before-write) + stride-unit dataflow lint",
+      "The same rule set as C02 on the eigenvalue/Schur/SVD routine files and shared auxiliaries (found and repaired the Dlaln2 ldb/ldx defect and the missing Dgebd2 length check). Orthogonality, residual identities, ordering and convergence are NOT decided.",
+      TRUST, "DESIGN.md §3.2, §3.3, §4 C03")
+claim("C04",
+      "custom AST/type dataflow lint (Data/Stride access-path pairing)",
+      "Structural necessary condition of C04 decided for every function of mat: each Data[...] access and each (Data, Stride) pair given to blas64/lapack64 uses the stride of the same matrix, so a strided view is addressed with its own stride on every path. Agreement of dispatch arms with the generic definition is NOT decided.",
+      TRUST, "DESIGN.md §3.2, §4 C04")
+claim("C07",
+      "custom CFG path analysis of argument-check prologues (order, must-pass-through length checks, completeness) + stride-unit lint",
+      "The mostly structural property: for all 281 exported BLAS/LAPACK entry points and every prologue path, no argument-check panic is reachable after an operand write, every slice use is dominated on all paths by a branch on its length, every int/flag/slice parameter is validated (exceptions frozen with reasons), and no operand is addressed with another's stride. In-bounds behaviour of assembly given correct lengths and exactness of each extent expression are NOT decided here.",
+      TRUST, "DESIGN.md §3.3, §4 C07")
+
 PENDING = "check not built yet in this round (see DESIGN.md §8 build order); not claimed until it is"
-for p in ["C02","C03","C04","C05","C06","C07","C08","C09","C12","C16","C17","C18","C19"]:
+for p in ["C05","C06","C08","C09","C12","C16","C17","C18","C19"]:
     na(p, PENDING)
 
 na("C10", "every clause is an identity between floating-point values of different calls (permutation/affine invariance, quantile coherence, PSD-ness); no clause is visible in the shape of the code, so no sound static rule applies")
